@@ -68,6 +68,15 @@ def generate(rng, tier):
                 want = pyref.integrity(b"".join(f), salt, pk).hex() + " ~0"
                 for which in ("win", "mac"):
                     cs.append(Case("integ.%s %s %s %s" % (which, " ".join(hx(x) for x in f), salt.hex(), pk.hex()), "file-%ss-with-a-format-marker" % ("start" if where == "head" else "end"), want, dict(n=sum(map(len, f)))))
+    # files with EQUAL contents next to each other, equal files apart, empty files between equal ones, a periodic buffer cut at its period:
+    # every file counts, however it compares with its neighbours
+    for _ in range(10 if tier == "quick" else 300):
+        a_, b_, c_, d_ = (rbytes(rng, rng.randint(1, 20)) for _ in range(4))
+        for f in ([a_, b_, b_, c_, d_], [a_, a_, a_, a_, a_], [a_, b_, b"", b_, a_], [b_, b_, c_, c_, d_], [a_, b"", b"", a_, a_], [b_[:1]] * 5):
+            salt, pk = rbytes(rng, 16), rbytes(rng, 32)
+            want = pyref.integrity(b"".join(f), salt, pk).hex() + " ~0"
+            for which in ("win", "mac"):
+                cs.append(Case("integ.%s %s %s %s" % (which, " ".join(hx(x) for x in f), salt.hex(), pk.hex()), "equal-files-next-to-each-other", want, dict(n=sum(map(len, f)))))
     # calls in a row with the same salt and same-length but different contents (nothing may be remembered between calls),
     # and the two key values the SRP code refuses (the integrity hash has no such exception)
     for L in (1, 50, 64, 300):
